@@ -338,6 +338,7 @@ def check(chk):
     _suppression(chk, repo)
     _split_symmetry(chk, repo)
     _direct_fade(chk, repo)
+    _removal_always_removes(chk, repo)
 
     # ------------------------------------------------------------ BATCH-1
     g = repo.func(BL, "PlatformBatchLightSystem._send_update_batch")
@@ -783,6 +784,33 @@ def _direct_fade(chk, repo):
     chk.floor("FADE-1", 8)
 
 
+def _removal_always_removes(chk, repo):
+    """REMOVE-9: removing a key that is in the stack always takes the key's entry out: every returning path of
+    Light.remove_from_stack_by_key passes `_remove_from_stack_by_key(key)` unless the stack is empty or the key was not found.  (A key
+    that is already fading out is removed at once - "do not fade out the fade out" - not left alone: its transparent entry keeps its
+    priority and makes `_add_to_stack` reject a later, lower-priority use of the same key.)"""
+    f = repo.func(LT, "Light.remove_from_stack_by_key")
+    chk.analysed(f)
+    cfg = f.cfg()
+    rm = [n.id for n, c in cfg.calls_named("_remove_from_stack_by_key") if [src(a) for a in c.args] == ["key"]]
+    chk.need(rm, "REMOVE-9", "Light.remove_from_stack_by_key takes the key's entries out (_remove_from_stack_by_key(key))", f)
+    local = {t.id for x in walk_local(f.node) if isinstance(x, ast.Assign) for t in x.targets if isinstance(t, ast.Name) and
+             isinstance(x.value, ast.Subscript) and src(x.value.value) == "self.stack"}
+    nothing = [b.id for b in cfg.nodes if b.kind == "branch" and b.value is False and
+               (src(b.ast) == "self.stack" or (isinstance(b.ast, ast.Name) and b.ast.id in local))]
+    w = cfg.must_pass(cfg.entry.id, rm + nothing)
+    chk.ob("REMOVE-9", "every returning path of remove_from_stack_by_key removes the key's entry unless the stack is empty or the key is not in it",
+           w is None, f.where(), construct=f.ident,
+           detail="a removal that is ignored (e.g. while the key fades out) leaves its entry, colour and priority in the stack",
+           text="removal of a present key ignored", path=cfg.fmt_path(w, f) if w else None, nontrivial=True)
+    upd = [n.id for n, c in cfg.calls_named("_schedule_update")]
+    nochange = [b.id for b in cfg.nodes if b.kind == "branch" and b.value is False and src(b.ast) == "color_changes"]
+    for r in rm:
+        w = cfg.must_pass(r, upd + nochange)
+        chk.ob("REMOVE-9", "after the removal the light is updated unless an opaque entry above hides the change", w is None and bool(upd),
+               f.where(cfg.nodes[r].ast), construct=f.ident, text="update after removal", path=cfg.fmt_path(w, f) if w else None)
+
+
 def scan_exits_only_at_key(chk, rule, g, gcfg, h, name):
     """Every early exit (break / return) of a stack scan is taken at the key, so the entry with that key is always found."""
     for n in gcfg.nodes_where(lambda n: n.kind == "stmt" and isinstance(n.ast, (ast.Break, ast.Return))):
@@ -798,6 +826,9 @@ def scan_exits_only_at_key(chk, rule, g, gcfg, h, name):
 def battery():
     from sa.battery import M
     return [
+        M("second removal during the fade-out ignored", LT, "        if stack[0].dest_color is None:\n            fade_ms = None\n", "        if stack[0].dest_color is None:\n            return\n", "REMOVE-9"),
+        M("brightness subscription dropped when nothing changed", "mpf/core/light_controller.py", "        self.brightness_factor, future = self._brightness_template.evaluate_and_subscribe([])\n        future.add_done_callback(self._update_brightness)", "        factor, future = self._brightness_template.evaluate_and_subscribe([])\n        if factor == self.brightness_factor:\n            return\n        self.brightness_factor = factor\n        future.add_done_callback(self._update_brightness)", "REARM-0"),
+        M("twin: brightness subscription renewed before the comparison", "mpf/core/light_controller.py", "        self.brightness_factor, future = self._brightness_template.evaluate_and_subscribe([])\n        future.add_done_callback(self._update_brightness)", "        factor, future = self._brightness_template.evaluate_and_subscribe([])\n        future.add_done_callback(self._update_brightness)\n        if factor == self.brightness_factor:\n            return\n        self.brightness_factor = factor", None),
         M("fade-out scan gives up at opaque entry", LT, "                # found entry above the removed which is non-transparent\n                color_change = False\n", "                # found entry above the removed which is non-transparent\n                color_change = False\n                break\n", "DOM-19"),
         M("append without sort", LT, "        if len(self.stack) > 1:\n            self.stack.sort(reverse=True)\n\n        if self._debug:\n            self.debug_log(\"+-------------- Adding to stack", "        if self._debug:\n            self.debug_log(\"+-------------- Adding to stack", "SORT-3"),
         M("stack ascending", LT, "            self.stack.sort(reverse=True)\n\n        if self._debug:", "            self.stack.sort()\n\n        if self._debug:", "SORT-3"),
